@@ -1,5 +1,6 @@
 SPECIFICATION Spec
 CONSTANTS
+  ReorgMarked = TRUE
   N = 3
   MaxDeliver = 3
   MaxCrash = 1
@@ -7,5 +8,5 @@ CONSTANTS
   ReadFill = FALSE
   Forks = FALSE
   Gaps = FALSE
-INVARIANTS InvCache InvHeadLinked InvIndex InvHeadState InvMarks InvExecuted InvWeightMonotone InvCrashHeadWeak
+INVARIANTS InvCache InvHeadLinked InvIndex InvHeadState InvMarks InvExecuted InvWeightMonotone InvCrashHeadStrict
 CHECK_DEADLOCK FALSE
